@@ -97,6 +97,171 @@ def tasks(tier, seed=0):
   return out
 
 
+def sharded_tasks(tier):
+  out = []
+  base = [dict(graft='RMSPROP', q=2, s=1, start=1), dict(graft='SGD', q=1, s=2, start=0, nesterov=False, weight_decay=0.125),
+          dict(graft='ADAGRAD', q=3, s=1, start=2, moving_average=True, decoupled_wd=True, weight_decay=0.125, exponent_override=3)]
+  if tier == 'thorough':
+    base += [dict(graft='SQRT_N', q=2, s=3, start=1, decoupled_lr=False), dict(graft='RMSPROP_NORMALIZED', q=1, s=1, start=0, lr_schedule=True),
+             dict(graft='NONE', q=2, s=2, start=2, beta1=0.0)]
+  for i, c in enumerate(base):
+    for shapes, D in (([(2, 2)], 1), ([(3,), (2, 2)], 2)) if (tier == 'thorough' or i == 0) else (([(2, 2)], 1 + i % 2),):
+      out.append(dict(sharded=True, cfg=dict(BASE, block_size=4, **c), shapes=[list(x) for x in shapes], D=D))
+  return out
+
+
+def sharded_work(task):
+  """sharded variant: same documented math, with the update using the preconditioners of the PREVIOUS refresh"""
+  t0 = time.time()
+  c = dsh.full_cfg(task['cfg'])
+  shapes = [tuple(x) for x in task['shapes']]
+  D = task['D']
+  tag = 'sharded|' + '+'.join('x'.join(map(str, x)) for x in shapes) + f'|D={D}|' + ','.join(f'{k}={v}' for k, v in sorted(task['cfg'].items()) if k != 'matrix_epsilon')
+  dsh.install_root_stub()
+  params = dsh.zeros_tree(shapes)
+  try:
+    tr, state0, opt, mesh = dsh.trace_sharded(c, params, D)
+  except dsh.RealCodeError as ex:
+    what = sharded_history(task, seed=0)
+    if what is None:
+      return dict(results=[], violations=[], errors=[f'{tag}: trace failed: {ex}'], configs=1)
+    path = write_replay(PID, dict(property=PID, mode='sharded', task=task, seed=0, observed=what))
+    return dict(results=[dict(name=f'{tag}|real code raises', status='violation', kind='core', queries=0)],
+                violations=[dict(key='C02:sharded:crash', what=what, replay=path)], errors=[], configs=1)
+  I = Interp(Ctx())
+  leaves = tr.sym_inputs()
+  for k, nm in enumerate(tr.names):
+    if nm.endswith('.exponents'):
+      leaves[k] = np.asarray(tr.flat[k])
+  g_, st_, p_ = tr.unflatten_in(leaves)
+  upd, new = tr.run(I, leaves)
+  count = st_.count.item()
+  assume = [count >= 0, count <= 2 ** 31 - 2]
+  gs_old, gs_new = st_.stats.global_stats, new.stats.global_stats
+  msize = gs_old.statistics.shape[1]
+  thr = R.rlit(f32(c['thr']))
+  P = Prover(timeout_s=30, first_s=1.0)
+  P.equal(f'{tag}|count', new.count, np.array(R.s_add(count, 1), dtype=object), assume)
+  slot = 0
+  for key in sorted(params):
+    shape = tuple(params[key].shape)
+    ref = DSRef(c, shape, I)
+    loc_old, loc_new = st_.stats.local_stats[key], new.stats.local_stats[key]
+    sizes = list(state0.stats.local_stats[key].sizes)
+    stats_old = [gs_old.statistics[slot + k][:sizes[k], :sizes[k]] for k in range(ref.nstat)]
+    pre_old = [gs_old.preconditioners[slot + k][:sizes[k], :sizes[k]] for k in range(ref.nstat)]
+    stats = ref.statistics(g_[key], stats_old, count)
+    old_err = loc_old.training_metrics.inverse_pth_root_errors if c['metrics'] else None
+    pre_new, errs, roots = ref.preconditioners(stats, pre_old, old_err, count)
+    split = [count >= c['start']] + ([count % c['s'] == 0] if c['s'] > 1 else []) + ([count % c['q'] == 0] if c['q'] > 1 else []) + [e >= thr for _, e in roots]
+    for k in range(ref.nstat):
+      # only the real block is part of the documented state; how the padding is filled is bookkeeping
+      P.equal(f'{tag}|{key} global statistics[{slot + k}] (real block)', gs_new.statistics[slot + k][:sizes[k], :sizes[k]], stats[k], assume, split)
+      # stored preconditioner: accepted zero-padded root, else the old padded one
+      on = ref.step_on(count, c['q'])
+      accept = R.s_and(on, R.s_not(R.s_ge(roots[k][1], f32(c['thr']))))
+      want_p = emap(lambda r_, o_: R.s_if(accept, r_, o_), roots[k][0], pre_old[k])
+      P.equal(f'{tag}|{key} global preconditioners[{slot + k}] (real block)', gs_new.preconditioners[slot + k][:sizes[k], :sizes[k]], want_p, assume, split)
+    if ref.nstat and c['metrics']:
+      P.equal(f'{tag}|{key} inverse_pth_root_errors', loc_new.training_metrics.inverse_pth_root_errors, np.array(errs, dtype=object), assume, split)
+    diag = loc_old.diagonal_statistics.quantized
+    if np.asarray(diag, dtype=object).size == 0:
+      diag = arr(shape, Fraction(0))
+    # the update is built from the preconditioners stored BEFORE this step (previous refresh)
+    out = ref.transform(g_[key], p_[key], count, pre_old, diag, loc_old.momentum.quantized, loc_old.diagonal_momentum.quantized)
+    P.equal(f'{tag}|{key} update (uses the previous refresh\'s preconditioners)', upd[key], out['update'], assume, split)
+    P.equal(f'{tag}|{key} momentum', loc_new.momentum.quantized, out['mom'], assume, split)
+    P.equal(f'{tag}|{key} diagonal_momentum', loc_new.diagonal_momentum.quantized, out['dmom'], assume, split)
+    if np.asarray(loc_new.diagonal_statistics.quantized, dtype=object).size:
+      P.equal(f'{tag}|{key} diagonal_statistics', loc_new.diagonal_statistics.quantized, out['diag'], assume, split)
+    slot += ref.nstat
+  P.reach(f'{tag}|twin: preconditioned step reachable', assume, [count >= c['start']])
+  res, viol = [], []
+  confirmed = None
+  for r in P.results:
+    if r['status'] == 'sat' and r.get('kind', 'core') == 'core':
+      if confirmed is None:
+        confirmed = False
+        for seed in (0, 1):
+          what = sharded_history(task, seed)
+          if what:
+            path = write_replay(PID, dict(property=PID, mode='sharded', task=task, seed=seed, observed=what))
+            confirmed = dict(what=what, replay=path)
+            break
+      if confirmed:
+        r['status'] = 'violation'
+        viol.append(dict(key=f"C02:sharded:{r['name'].split('|')[-1].split(' ')[1] if ' ' in r['name'].split('|')[-1] else 'leaf'}", what=confirmed['what'], replay=confirmed['replay']))
+      else:
+        r['status'] = 'spurious'
+        r['note'] = 'candidate counterexample did not reproduce on the real code'
+    res.append(dict(r))
+  return dict(results=res, violations=viol, errors=[], configs=1,
+              samples=[dict(sharded=True, config=task['cfg'], shapes=task['shapes'], D=D, jaxpr_eqns=tr.n_eqns)],
+              extra=dict(jaxpr_eqns_total=tr.n_eqns, eval_s=round(time.time() - t0, 2)))
+
+
+def sharded_history(task, seed=0, T=8):
+  """real sharded optimizer (one-device mesh, jit) vs the numeric reference with previous-refresh preconditioners"""
+  c = dsh.full_cfg(task['cfg'])
+  shapes = [tuple(x) for x in task['shapes']]
+  D = task['D']
+  dsh.uninstall_root_stub()
+  try:
+    rng = np.random.RandomState(seed)
+    params = {f'p{i}': jnp.asarray(rng.randn(*sh), jnp.float32) for i, sh in enumerate(shapes)}
+    try:
+      tr, state, opt, mesh = dsh.trace_sharded(c, params, D)
+    except Exception as ex:
+      return f'sharded optimizer raises {type(ex).__name__}: {str(ex)[:200]}'
+    refs = {k: DSRef(c, tuple(v.shape), NumI()) for k, v in params.items()}
+    st = {}
+    slot = 0
+    for key in sorted(params):
+      ref = refs[key]
+      loc = state.stats.local_stats[key]
+      sizes = list(loc.sizes)
+      st[key] = dict(slot=slot, sizes=sizes,
+                     stats=[tofl(np.asarray(state.stats.global_stats.statistics[slot + k])[:sizes[k], :sizes[k]]) for k in range(ref.nstat)],
+                     pre=[tofl(np.asarray(state.stats.global_stats.preconditioners[slot + k])[:sizes[k], :sizes[k]]) for k in range(ref.nstat)],
+                     diag=tofl(loc.diagonal_statistics.quantized) if np.asarray(loc.diagonal_statistics.quantized).size else arr(tuple(params[key].shape), 0.0),
+                     mom=tofl(loc.momentum.quantized), dmom=tofl(loc.diagonal_momentum.quantized), pf=tofl(np.asarray(params[key], np.float32)))
+      slot += ref.nstat
+    with mesh:
+      upd_fn = jax.jit(opt.update)
+      for t in range(T):
+        g = {k: jnp.asarray(rng.randn(*v.shape), jnp.float32) for k, v in params.items()}
+        u, state = upd_fn(g, state, params)
+        for key in sorted(params):
+          ref, s_ = refs[key], st[key]
+          gf = tofl(np.asarray(g[key], np.float32))
+          out = ref.transform(gf, s_['pf'], t, s_['pre'], s_['diag'], s_['mom'], s_['dmom'])
+          s_['diag'], s_['mom'], s_['dmom'] = out['diag'], out['mom'], out['dmom']
+          code = np.asarray(u[key], np.float64)
+          want = np.array([float(x) for x in out['update'].reshape(-1)]).reshape(code.shape)
+          scale = max(np.abs(want).max(), 1e-6)
+          if not np.all(np.isfinite(code)) or np.abs(code - want).max() > 2e-2 * scale:
+            return (f'step {t}: sharded update of {key} differs from the documented update with previous-refresh preconditioners: '
+                    f'{code.reshape(-1)[:4]} vs {want.reshape(-1)[:4]}')
+          s_['stats'] = ref.statistics(gf, s_['stats'], t)
+          if ref.step_on(t, c['q']):
+            errs = np.asarray(state.stats.local_stats[key].training_metrics.inverse_pth_root_errors).reshape(-1)
+            newp = []
+            for k in range(ref.nstat):
+              if errs[k] < c['thr']:
+                newp.append(tofl(num_root(s_['stats'][k], ref.exponent, c['matrix_epsilon'])))
+              else:
+                return None
+            s_['pre'] = newp
+          for k in range(ref.nstat):
+            got = np.asarray(state.stats.global_stats.preconditioners[s_['slot'] + k], np.float64)[:s_['sizes'][k], :s_['sizes'][k]]
+            wantp = np.array([[float(x) for x in row] for row in s_['pre'][k]])
+            if np.abs(got - wantp).max() > 2e-2 * max(np.abs(wantp).max(), 1e-6):
+              return f'step {t}: stored global preconditioner {s_["slot"] + k} differs from the documented root / previous value'
+    return None
+  finally:
+    dsh.install_root_stub()
+
+
 def tagof(t):
   c = t['cfg']
   keys = ['graft', 'beta1', 'beta2', 'nesterov', 'moving_average', 'weight_decay', 'decoupled_wd', 'decoupled_lr',
@@ -152,6 +317,8 @@ def reference(c, shape, I, g, p, count, st):
 
 
 def work(task):
+  if task.get('sharded'):
+    return sharded_work(task)
   t0 = time.time()
   c = dsh.full_cfg(task['cfg'])
   shape = tuple(task['shape'])
@@ -341,6 +508,14 @@ def confirm(task, c, shape, r, tr, leaves):
 
 def replay(path):
   d = json.load(open(path))
+  if d.get('mode') == 'sharded':
+    what = sharded_history(d['task'], d['seed'])
+    if what:
+      print(f'VIOLATION property={PID} replay={path}')
+      print('  ' + what)
+      return 1
+    print('replay: sharded update matches')
+    return 0
   if d.get('mode') == 'crash':
     what = dsh.concrete_crash(d['config'], [tuple(d['shape'])])
     if what:
@@ -365,14 +540,15 @@ def run(rep):
       'grafting accumulator, both momenta) is proved equal to an independent reference model of the documented math for ALL '
       'states, gradients, parameters and step counters 0..2^31-2 (one step from an arbitrary state = histories of any length). '
       'Inverse roots are uninterpreted functions ROOT_k(S[:k,:k], p), ERR_k(...) shared by code and reference; z3 decides each '
-      'leaf after lazy case-splitting on the schedule/acceptance gates.')
+      'leaf after lazy case-splitting on the schedule/acceptance gates.  Sharded variant: the same, with the update proved to use the '
+      'preconditioners stored before the step (previous refresh) and the global statistics / preconditioners zero-padded.')
   for q, f in [('distributed_shampoo.update_fn', 1), ('_compute_stats', 1), ('_compute_preconditioners', 1),
                ('_pmap_compute_preconditioners', 1), ('_transform_grad', 1), ('Preconditioner.*', 1),
                ('BlockPartitioner.*', 1), ('gram_weighted_update', 1), ('efficient_cond', 1), ('merge_small_dims', 1),
                ('batch/unbatch', 1), ('pad_square_matrix', 1)]:
     rep.encode('precondition.distributed_shampoo.' + q, 'precondition/distributed_shampoo.py')
-  ts = tasks(rep.tier, rep.seed if rep.tier == 'thorough' else 0)
-  rep.bounds = dict(configurations=len(ts), shapes=sorted({str(tuple(t['shape'])) for t in ts}),
+  ts = tasks(rep.tier, rep.seed if rep.tier == 'thorough' else 0) + sharded_tasks(rep.tier)
+  rep.bounds = dict(configurations=len(ts), shapes=sorted({str(tuple(t['shape'])) for t in ts if 'shape' in t}),
                     step_counter='symbolic, 0..2^31-2', history='one step from an arbitrary state',
                     options='graft type x beta1 x beta2 x nesterov x moving average x weight decay x decoupling x lr '
                             'decoupling/schedule x start step x (s,q) in {1,2,3}^2 x exponent override x preconditioner '
@@ -383,5 +559,5 @@ def run(rep):
                      'dyadic hyper-parameters so that float32 constants are exact',
                      'NaN/Inf not represented (acceptance gate on NaN is C03)']
   rep.outside = ['float rounding', 'body of the inverse root (C01)', 'quantized state values (C11)',
-                 'sharded variant (checked for cadence/gating in C03/C04, device invariance in C13)']
+                 'sharded variant on a real multi-device mesh (traced under a one-device mesh)']
   run_tasks('vp.props.c02', 'work', ts, report=rep)
